@@ -431,11 +431,10 @@ fn tidy_proj(elements: &mut Vec<String>) -> Result<(), Error> {
 
     // `projinfo`  still produces strings with scaling defined as `k` instead of `k_0`
     // We replace `k` with `k_0` wherever it is encountered.
-    for (i, element) in elements.iter().enumerate() {
+    // Every occurrence: with the pipeline globals in front, the step's own `k` comes last and must win
+    for element in elements.iter_mut() {
         if let Some(stripped) = element.strip_prefix("k=") {
-            elements[i] = "k_0=".to_string() + stripped;
-            // There should be at most one scaling so it's safe to break here
-            break;
+            *element = "k_0=".to_string() + stripped;
         }
     }
 
